@@ -1131,7 +1131,7 @@ func genReq(r *rand.Rand, d *APIDesc, i int) ReqDesc {
 
 func run(m *mon.M) {
 	r := m.Rand("apis")
-	napi := m.N(60, 500)
+	napi := m.N(400, 3000)
 	nreq := m.N(80, 100)
 	for a := 0; a < napi; a++ {
 		d := genAPI(r)
